@@ -55,17 +55,25 @@ func fromBE8(b []byte) int64 {
 }
 
 type Out struct {
+	path string
 	f *os.File
 	w *bufio.Writer
 	n int
 }
 
 func newOut(path string) *Out {
-	f, err := os.Create(path)
+	f, err := os.OpenFile(path, os.O_APPEND|os.O_CREATE|os.O_WRONLY, 0644)
 	if err != nil {
 		panic(err)
 	}
-	return &Out{f: f, w: bufio.NewWriterSize(f, 1<<20)}
+	return &Out{f: f, w: bufio.NewWriterSize(f, 1<<20), path: path}
+}
+
+// Begin marks case i as in progress (crash attribution) after flushing what earlier cases logged.
+func (o *Out) Begin(i int, c interface{}) {
+	o.w.Flush()
+	bs, _ := json.Marshal(map[string]interface{}{"i": i, "case": c})
+	os.WriteFile(o.path+".cur", bs, 0644)
 }
 
 func (o *Out) Emit(v interface{}) {
